@@ -629,6 +629,74 @@ pub fn generate(seed: u64, knobs: &Knobs) -> C10Scenario {
                     path: world.sources[i].path.clone(),
                 });
             }
+            94 => {
+                // the output of a removed source cannot be removed (one failing `remove`)
+                if world.input_is_file || world.sources.len() < 2 || !sim || !knobs.allow_faults {
+                    continue;
+                }
+                let i = rh.below(world.sources.len());
+                let path = world.sources[i].path.clone();
+                let mirror = match path.strip_prefix(&format!("{}/", world.input)) {
+                    Some(rel) => gen::join(&world.output, rel),
+                    None => continue,
+                };
+                // something else happens in the same pass so that work is pending
+                let j = (i + 1) % world.sources.len();
+                let mut s = world.sources[j].clone();
+                s.version += 1;
+                let body = world.render(&s);
+                world.sources[j] = s.clone();
+                world.sources.remove(i);
+                new_ops.push(Op::Edit {
+                    path: s.path,
+                    body: Body::Text(body),
+                });
+                new_ops.push(Op::RemoveFile { path });
+                new_ops.push(Op::Faults {
+                    rules: vec![FaultRule {
+                        kind: FaultKind::RemoveEacces,
+                        path: mirror,
+                        nth: Some(0),
+                        epoch: None,
+                    }],
+                    renotify: Vec::new(),
+                });
+                new_ops.push(Op::Pass);
+                new_ops.push(Op::Pass);
+            }
+            95 => {
+                // a file that is required but missing (removed or renamed away) comes back
+                if world.config.bundle.is_none() {
+                    continue;
+                }
+                let existing: BTreeSet<String> =
+                    world.all_lua().iter().map(|s| s.path.clone()).collect();
+                let dangling: Vec<String> = world
+                    .all_lua()
+                    .iter()
+                    .flat_map(|s| s.requires.clone())
+                    .filter(|r| gen::is_lua(r) && !existing.contains(r) && r.starts_with(&format!("{}/", world.input)))
+                    .collect();
+                if dangling.is_empty() || world.input_is_file {
+                    continue;
+                }
+                let path = rh.pick(&dangling).clone();
+                let s = WSource {
+                    path: path.clone(),
+                    body_index: rh.below(corpus::BODIES.len()),
+                    version: 0,
+                    requires: Vec::new(),
+                    broken: false,
+                    id: world.next_id,
+                };
+                world.next_id += 1;
+                let body = world.render(&s);
+                world.sources.push(s);
+                new_ops.push(Op::Add {
+                    path,
+                    body: Body::Text(body),
+                });
+            }
             90..=93 => {
                 // delete and re-create before the next pass
                 if world.input_is_file || world.sources.is_empty() || avoid("delete-recreate") {
@@ -761,4 +829,118 @@ pub fn generate(seed: u64, knobs: &Knobs) -> C10Scenario {
         walk_seed: ro.next_u64(),
         hash_seed: ro.next_u64(),
     }
+}
+
+// ------------------------------------------------------------------ exhaustive stratum
+
+/// The alphabet of the exhaustive short-history stratum over one fixed bundle project
+/// (DESIGN.md §4.2). Every operation is concrete; `stamp` makes edited content unique.
+fn enum_op(kind: usize, stamp: usize) -> Vec<Op> {
+    let lua = |marker: &str, requires: &[&str]| {
+        let mut text = String::new();
+        for (i, r) in requires.iter().enumerate() {
+            text.push_str(&format!("local dep{} = require(\"{}\")\nuse(dep{})\n", i, r, i));
+        }
+        text.push_str(&format!("mark(\"{}\")\nreturn {{ \"{}\" }}\n", marker, marker));
+        Body::Text(text)
+    };
+    let m = |name: &str| format!("{}_{}", name, stamp);
+    match kind {
+        0 => vec![Op::Edit { path: "src/main.lua".into(), body: lua(&m("main"), &["./lib/a.lua", "./lib/b.lua"]) }],
+        1 => vec![Op::Edit { path: "src/lib/b.lua".into(), body: lua(&m("b"), &[]) }],
+        2 => vec![Op::Edit { path: "src/other.lua".into(), body: lua(&m("other"), &[]) }],
+        3 => vec![Op::Edit { path: "src/lib/a.lua".into(), body: Body::Text(format!("local = {}\n", stamp)) }],
+        4 => vec![Op::Edit { path: "src/lib/a.lua".into(), body: lua(&m("a"), &["./b.lua"]) }],
+        5 => vec![Op::Add { path: "src/new.lua".into(), body: lua(&m("new"), &["./lib/b.lua"]) }],
+        6 => vec![Op::Add { path: "src/lib/deep/c.lua".into(), body: lua(&m("c"), &[]) }],
+        7 => vec![Op::RemoveFile { path: "src/other.lua".into() }],
+        8 => vec![Op::RemoveFile { path: "src/lib/b.lua".into() }],
+        9 => vec![Op::RemoveDir { path: "src/lib".into() }],
+        10 => vec![Op::Edit { path: ".darklua.json".into(), body: Body::Text(format!("{{\"bundle\":{{\"require_mode\":\"path\"}},\"rules\":[\"remove_comments\",{{\"rule\":\"append_text_comment\",\"text\":\"v{}\"}}]}}", stamp)) }],
+        11 => vec![Op::Edit { path: ".darklua.json".into(), body: Body::Text("{\"bundle\":{\"require_mode\":\"path\"},\"rules\":[{\"rule\":\"remove_spaces\",\"skip_files\":[\"**/other.lua\"]},\"remove_comments\"]}".into()) }],
+        12 => vec![Op::Edit { path: ".darklua.json".into(), body: Body::Text("{\"bundle\":{\"require_mode\":\"path\"},\"generator\":\"dense\",\"rules\":[]}".into()) }],
+        13 => vec![Op::Touch { path: "src/main.lua".into() }],
+        14 => vec![Op::Add { path: "src/lib/b.lua".into(), body: lua(&m("b_again"), &[]) }],
+        _ => vec![Op::Rename { from: "src/other.lua".into(), to: "src/lib/moved.lua".into() }],
+    }
+}
+
+pub const ENUM_ALPHABET: usize = 16;
+
+/// Number of enumerated histories with at most `max_len` operations (each operation is
+/// followed by a pass or not; the history always ends with a pass).
+pub fn enum_count(max_len: usize) -> usize {
+    let mut total = 0;
+    for len in 1..=max_len {
+        total += ENUM_ALPHABET.pow(len as u32) * (1 << (len - 1));
+    }
+    total
+}
+
+/// The `index`-th history of the exhaustive stratum (canonical order: by length, then
+/// by operation tuple, then by pass placement).
+pub fn enumerated(mut index: usize, max_len: usize) -> Option<C10Scenario> {
+    let mut len = 1;
+    loop {
+        if len > max_len {
+            return None;
+        }
+        let block = ENUM_ALPHABET.pow(len as u32) * (1 << (len - 1));
+        if index < block {
+            break;
+        }
+        index -= block;
+        len += 1;
+    }
+    let pass_bits = index % (1 << (len - 1));
+    let mut tuple = index / (1 << (len - 1));
+    let mut kinds = Vec::new();
+    for _ in 0..len {
+        kinds.push(tuple % ENUM_ALPHABET);
+        tuple /= ENUM_ALPHABET;
+    }
+    kinds.reverse();
+    let lua = |marker: &str, requires: &[&str]| {
+        let mut text = String::new();
+        for (i, r) in requires.iter().enumerate() {
+            text.push_str(&format!("local dep{} = require(\"{}\")\nuse(dep{})\n", i, r, i));
+        }
+        text.push_str(&format!("-- {}\nmark(\"{}\")\nreturn {{ \"{}\" }}\n", marker, marker, marker));
+        Body::Text(text)
+    };
+    let entries = vec![
+        FsEntry { path: "src/main.lua".into(), body: lua("main_0", &["./lib/a.lua", "./lib/b.lua"]) },
+        FsEntry { path: "src/lib/a.lua".into(), body: lua("a_0", &["./b.lua"]) },
+        FsEntry { path: "src/lib/b.lua".into(), body: lua("b_0", &[]) },
+        FsEntry { path: "src/other.lua".into(), body: lua("other_0", &[]) },
+        FsEntry { path: "src/notes.txt".into(), body: Body::Text("not lua\n".into()) },
+        FsEntry { path: ".darklua.json".into(), body: Body::Text("{\"bundle\":{\"require_mode\":\"path\"},\"rules\":[\"remove_comments\"]}".into()) },
+        FsEntry { path: "out/foreign.txt".into(), body: Body::Text("foreign\n".into()) },
+        FsEntry { path: "out/keep".into(), body: Body::Dir },
+    ];
+    let mut ops = vec![Op::Pass];
+    for (i, kind) in kinds.iter().enumerate() {
+        ops.extend(enum_op(*kind, i + 1));
+        let pass_here = i + 1 == len || (pass_bits >> i) & 1 == 1;
+        if pass_here {
+            ops.push(Op::Pass);
+        }
+    }
+    Some(C10Scenario {
+        seed: index as u64,
+        layer: Layer::L1,
+        backend: Backend::SimFs,
+        entries,
+        opts: OptSpec {
+            input: "src".into(),
+            output: Some("out".into()),
+            config: ConfigSource::Default,
+            fail_fast: false,
+            generator_override: None,
+        },
+        ops,
+        use_add_source: false,
+        walk_seed: 0,
+        hash_seed: 0,
+    })
 }
